@@ -128,6 +128,7 @@ class Connection:
         self.sc = Direction(self, "s2c", chunk_sc, rng)
         self.activity = 0
         self.killed = False
+        self.aborted = False             # set by the watchdog: every further transport call fails at once
 
     def kill(self):
         """The connection dies: nothing more is accepted in either direction; buffered bytes (up to a cut) are
@@ -158,6 +159,8 @@ def make_endpoint_class():
             self.forced_close = False
 
         async def send(self, item: bytes) -> None:
+            if self.conn.aborted:
+                raise Livelock
             if self.closed:
                 raise anyio.ClosedResourceError
             self.conn.activity += 1
@@ -172,6 +175,8 @@ def make_endpoint_class():
                 self.in_send -= 1
 
         async def receive(self, max_bytes: int = 65536) -> bytes:
+            if self.conn.aborted:
+                raise Livelock
             if self.closed:
                 raise anyio.ClosedResourceError
             self.n_receive += 1
@@ -463,17 +468,22 @@ async def run_scenario(sc: Scenario, certs: Certs, idle_limit: int = 400):
 
     async def watchdog(scope):
         nonlocal deadlocked
-        last, idle = -1, 0
+        last, idle, cycles = -1, 0, 0
         while state["done"] < 2:
             await anyio.lowlevel.checkpoint()
+            cycles += 1
             if conn.activity == last:
                 idle += 1
-                if idle > idle_limit:
-                    deadlocked = True
-                    scope.cancel()
-                    return
             else:
                 last, idle = conn.activity, 0
+            if idle > idle_limit or cycles > 3_000_000:
+                # nothing moves any more (or the scenario spins without end): abort it deterministically
+                deadlocked = True
+                conn.aborted = True
+                for d in (conn.cs, conn.sc):
+                    d.wake()
+                scope.cancel()
+                return
 
     async with anyio.create_task_group() as tg:
         tg.start_soon(side, "client")
@@ -504,8 +514,6 @@ def monitors(sc: Scenario, res_c: SideResult, res_s: SideResult, conn: Connectio
         return monitors_half_close(sc, res_c, res_s, conn, eps, deadlocked)
     v: list[str] = []
     flags: set[str] = set()
-    if deadlocked:
-        v.append("deadlock: every task is blocked and no byte moves (handshake or data never completes)")
     if res_c.cancelled_receives or res_s.cancelled_receives:
         flags.add("cancelled_receive")
     items = {"client": payload_bytes(sc.seed, "client", sc.payload_c),
@@ -591,6 +599,8 @@ def monitors(sc: Scenario, res_c: SideResult, res_s: SideResult, conn: Connectio
             else:
                 if truncated and not peer_failed(peer):
                     v.append(f"{role}: H_ssl: truncated stream reported by the SSL object as {oc}")
+    if deadlocked:
+        v.append("deadlock: every task is blocked and no byte moves (handshake or data never completes)")
     return v, flags
 
 
